@@ -588,6 +588,23 @@ class _Unwind(Exception):
         self.k = k
 
 
+class _UnwindBase(BaseException):
+    """leaving a block through an exception that is NOT an Exception subclass (KeyboardInterrupt, SystemExit, GeneratorExit,
+    asyncio.CancelledError are of this kind): validation must be back on just the same"""
+    def __init__(self, k: int):
+        super().__init__(k)
+        self.k = k
+
+
+class _UnwindKbd(KeyboardInterrupt):
+    def __init__(self, k: int):
+        super().__init__(k)
+        self.k = k
+
+
+_UNWINDS = (_Unwind, _UnwindBase, _UnwindKbd)
+
+
 def _probe(P) -> dict:
     """values outside the domain must be refused (and leave the message alone); values inside must be stored"""
     bads = [("MDF_P_SCAL", lambda m: setattr(m, "i8", 128)),
@@ -628,7 +645,7 @@ def _probe(P) -> dict:
     return {"a": "Probe", "badref": not accepted, "badsame": not changed, "good": good, "accepted": accepted, "changed": changed}
 
 
-def run_blocks(P, beh: List[dict]) -> List[dict]:
+def run_blocks(P, beh: List[dict], kind: int = 0) -> List[dict]:
     """execute a behaviour [Enter(m) | ExitNormal | ExitByException(k)] with real with-blocks; returns the event list"""
     from pyrtma.validators import disable_message_validation
 
@@ -646,10 +663,10 @@ def run_blocks(P, beh: List[dict]) -> List[dict]:
                         ev.append(_probe(P))
                         i, pend, explicit = level(i + 1, depth + 1)
                         if pend > 0:
-                            raise _Unwind(pend)
+                            raise _UNWINDS[kind % 3](pend)
                         if not explicit:
                             ev.append({"a": "ExitNormal", "m": "-", "k": 1})    # behaviour over: close normally
-                except _Unwind as u:
+                except _UNWINDS as u:
                     pend = u.k - 1
                 if pend > 0:
                     return i, pend, True         # keep propagating through the enclosing block
